@@ -216,3 +216,24 @@ def check_separator_typestate(R, rule):
     R.check(has_after and not bad and good, rule, "separator-needs-datum",
             "`,` yields a data separator only right after a data element outside the header (%d accepting rows, %d rows analysed)" % (len(good), len(sep)),
             "`,` is accepted as a data separator although no data element precedes it (%s): a misplaced `,` would be swallowed by the parameter iterator" % sorted({r.key() for r in bad})[:4])
+
+
+def check_unit_separator_typestate(R, rule):
+    """A message unit separator starts a fresh header: whatever unit preceded it (common command or not, with or
+    without parameters), the lexer is back in header state with the common-command flag cleared, so that the next
+    unit may use `:`."""
+    rows, classes, consts, has_after = next_table()
+    sep = [r for r in rows if r.b1 == ord(";")]
+    if not sep:
+        R.anchor_lost(rule, "`;` rows of the lexer dispatch table")
+        return
+    bad = [r for r in sep if not (r.result == "Ok(ProgramMessageUnitSeparator)" and r.final.get("in_header") is True and r.final.get("in_common") is False)]
+    R.check(not bad, rule, "unit-separator-resets-header-state",
+            "`;` yields a unit separator and leaves the lexer in header state with the common-command flag cleared, from every prior state (%d rows)" % len(sep),
+            "after `;` the lexer is not in a fresh header state (%s): the next unit's `:` or `*` would be misjudged" % sorted({"%s -> %s %s" % (r.key(), r.result, r.final) for r in bad})[:3])
+    colon = [r for r in rows if r.b1 == ord(":") and r.n2 not in ("END",) and r.b2 is not None and chr(r.b2).isalpha()]
+    badc = [r for r in colon if r.in_header and not r.in_common and r.result != "Ok(HeaderMnemonicSeparator)"]
+    badc += [r for r in colon if r.in_header and r.in_common and not r.result.startswith("Err(")]
+    R.check(colon and not badc, rule, "colon-in-header",
+            "`:` before a letter is a header separator in a compound header and an error inside a common command (%d rows)" % len(colon),
+            "`:` in a header is misjudged: %s" % sorted({"%s -> %s" % (r.key(), r.result) for r in badc})[:3])
